@@ -1826,6 +1826,15 @@ func outcomeKey(o *Outcome, st *State) string {
 			sb.WriteString("ptr")
 		case KNilPtr:
 			sb.WriteString("nil")
+		case KErr:
+			// errors of different classes are never joined: clients exempt sentinels and reader failures by symbol
+			sb.WriteString(fmt.Sprint(r.K))
+			switch {
+			case strings.Contains(r.Sym, "ioerr:"):
+				sb.WriteString(":ioerr")
+			case strings.Contains(r.Sym, "@"):
+				sb.WriteString(":" + r.Sym[strings.Index(r.Sym, "@"):])
+			}
 		case KSlice:
 			if r.S.Len.IsConst() {
 				fmt.Fprintf(&sb, "slice[%d]", r.S.Len.C)
@@ -1990,7 +1999,7 @@ func sameVal(a, b Val) bool {
 	case KSlice:
 		return (a.S.ID == b.S.ID || a.S.Len.IsConst()) && a.S.Len.Equal(b.S.Len)
 	case KErr:
-		return a.ErrNil == b.ErrNil && (a.ErrNil != Maybe || a.Sym == b.Sym)
+		return a.ErrNil == b.ErrNil && (a.ErrNil == Yes || a.Sym == b.Sym)
 	case KStruct:
 		if len(a.Fields) != len(b.Fields) {
 			return false
